@@ -110,6 +110,34 @@ func loadEngine(repoGo, specDir string) (*Engine, error) {
 	e.u.heap(panicvalHeap, SRef)
 	e.cs = loadContracts(repoGo, specDir)
 	e.cerrors = append(e.cerrors, e.cs.Errors...)
+	// a contract block of the repository whose function no longer exists (a
+	// closure folded into its parent, a renamed helper): its clauses are
+	// reported as unbound instead of vanishing with the function
+	{
+		var keys []string
+		for k := range e.cs.Funcs {
+			keys = append(keys, k)
+		}
+		sort.Strings(keys)
+		for _, k := range keys {
+			fc := e.cs.Funcs[k]
+			if fc.Pkg == "" || fc.Ext {
+				continue
+			}
+			if _, ok := e.funcByKey[k]; ok {
+				continue
+			}
+			// functions without body in the loaded program (interfaces, other build tags) are not in funcByKey either
+			for _, l := range [][]*Clause{fc.Requires, fc.Ensures, fc.XEnsures, fc.Invs, fc.Decr, fc.Asserts} {
+				for _, c := range l {
+					if c.Hypothesis || c.Kind == "assume" || c.Kind == "assign" {
+						continue
+					}
+					e.contractError(c, fmt.Errorf("function %s no longer exists", k))
+				}
+			}
+		}
+	}
 	e.declareGhosts()
 	e.declareAxioms()
 	e.computeEffects()
